@@ -188,6 +188,19 @@ func (g *Gen) scalarBytes() (op string, b []byte) {
 		return "Scalar.SetCanonicalBytes", canon(alpha.FromLE(b))
 	case 5: // clamped
 		return "Scalar.SetBytesWithClamping", rng.Bytes(32)
+	case 8: // recoding-targeted: a chosen odd digit d of the width-8 NAF at a chosen position p
+		pos := uint(rng.Intn(246))
+		d := int64(2*rng.Intn(128) - 127) // odd, -127..127
+		m := alpha.FromLE(rng.Bytes(32))
+		v := new(big.Int).Lsh(m, 8)
+		v.Add(v, big.NewInt(d))
+		if v.Sign() < 0 {
+			v.Add(v, big.NewInt(256))
+		}
+		v.Lsh(v, pos)
+		// keep it below l by dropping high bits (the low part, which fixes the digit, stays)
+		v.Mod(v, new(big.Int).Lsh(big.NewInt(1), 252))
+		return "Scalar.SetCanonicalBytes", canon(v)
 	case 6: // wide
 		b := rng.Bytes(64)
 		if rng.Bool(0.2) {
